@@ -390,3 +390,4 @@ package bigslice
 //@   modifies f.in, f.err, ColMem, colClock, userCalls, lastCallRvs, SReader.nreads, SReader.lastN, SReader.lastErr, rowsSupplied, sawRowsWithEOF
 //@   loop 1 invariant f.reader == old(f.reader) && f.reader.nreads >= old(f.reader.nreads) && old(f.err) == nil && implies(f.reader.nreads > old(f.reader.nreads), f.err == f.reader.lastErr) && implies(f.reader.nreads == old(f.reader.nreads), f.err == nil)
 //@   loop 2 invariant f.reader == old(f.reader) && f.reader.nreads > old(f.reader.nreads) && old(f.err) == nil && f.err == f.reader.lastErr
+//@   loop 1 step upstream-read-only-while-it-has-not-ended: at_head(f.err) == nil && f.reader.nreads == at_head(f.reader.nreads) + 1
